@@ -416,6 +416,10 @@ def _bound_degree(old_chunks, new_chunks, degree_limit):
         return [new_chunks]
 
     nsteps = math.ceil(math.log(degree) / math.log(degree_limit))
+    # An interpolated step coarsens some axes before others refine, so its blocks
+    # can outgrow both endpoints; such a step would break the planner's size
+    # budget (both endpoints respect it), so it is dropped.
+    size_budget = max(_largest_block_size(old_chunks), _largest_block_size(new_chunks))
     steps = []
     prev = old_chunks
     for t in range(1, nsteps):
@@ -431,7 +435,8 @@ def _bound_degree(old_chunks, new_chunks, degree_limit):
             # coarsen the finer endpoint so the intermediate aligns with it
             intermediate.append(merge_to_number(oc if no > nn else nc, count))
         intermediate = tuple(intermediate)
-        if intermediate != prev:  # drop steps that make no progress
+        if intermediate != prev and _largest_block_size(intermediate) <= size_budget:
+            # (also drops steps that make no progress)
             steps.append(intermediate)
             prev = intermediate
     if not steps or steps[-1] != new_chunks:
